@@ -37,6 +37,11 @@ CHECKS = {
           "Generated search with injected faults: every case runs untouched (everything the sender accepted must be delivered, nothing in clear on the wire, sizes around the 64 KiB record limit) and tampered (the receiver may only deliver an intact prefix and must close).",
           "Sans-IO engine level; the tamperer has no keys; known findings: heartbeats bypass the record layer, CURVE session keys/nonces repeat across sessions.",
           "DESIGN.md §2 C18"),
+  "C19": ("exploration",
+          "property-based testing (proptest): PING/PONG echo oracle over generated command/data streams and segmentations, ZMTP/2.0 tick silence, model-based testing of the egress buffer (reference queue + written-stream parse), real-clock timelines judged by the reference heartbeat rule on measured instants, engine-pair heartbeat round trips under all four mechanisms, raw peers (answering / silent / data-but-no-PONG / pinging) against real sessions",
+          "Generated search: thousands of heartbeat command streams and egress histories per run (pure, deterministic), hundreds of millisecond-scale timelines with ambiguous brackets skipped and counted, and a dozen stack scenarios with generous real-time bounds.",
+          "Real clock for the timed parts (engine stamps activity with Instant::now()); stack bounds: PING within [ivl-25ms, 2*ivl+250ms] of the last activity, dead peer closed no earlier than the timeout; known finding: PING/PONG bypass the record layer on CURVE/NOISE_XX; io_uring backend's missing heartbeat clock belongs to C20.",
+          "DESIGN.md §2 C19"),
 }
 
 NOT_YET = {
